@@ -39,7 +39,7 @@ func errClass(err error) string {
 }
 
 func suiteC14(cfg Config, res *Result) {
-	res.Rule = "grammar-generated programs in which the k-th output position is a fault point {{ 1/zz }} (zz = 0: execution error there; zz = 1: fault-free), for every k, plus the same programs without fault; each executed through Execute, ExecuteBytes, ExecuteWriter and ExecuteWriterUnbuffered with a recording writer, and through ExecuteWriter with a writer that starts failing after n calls; oracle: the four variants produce the same bytes and fail in the same cases; on failure ExecuteWriter wrote nothing and the unbuffered variant a prefix of the fault-free output; a failing caller's writer makes ExecuteWriter return an error; non-trivial = program with a fault point behind >= 1 output; distinct by (program, fault position)"
+	res.Rule = "grammar-generated programs in which the k-th output position is a fault point {{ 1/zz }} (zz = 0: execution error there; zz = 1: fault-free), for every k, plus the same programs without fault; each executed through Execute, ExecuteBytes, ExecuteWriter and ExecuteWriterUnbuffered with a recording writer, and through ExecuteWriter / ExecuteWriterUnbuffered with a writer that starts failing after 0..3 calls (programs include sub-templates); oracle: the four variants produce the same bytes and fail in the same cases; on failure ExecuteWriter wrote nothing and the unbuffered variant a prefix of the fault-free output; a failing caller's writer makes the call return an error — never a panic — having written a prefix; non-trivial = program with a fault point behind >= 1 output; distinct by (program, fault position)"
 	n := 1500
 	if cfg.Thorough() {
 		n = 30000
@@ -97,12 +97,13 @@ func suiteC14(cfg Config, res *Result) {
 			return
 		}
 		s1, eS1, b1, eB1, w1, eW1, u1, eU1, pan1 := run(1)
-		if pan1 != "" {
-			res.hist("panic")
-			continue
-		}
 		bad := func(sig, impl, want string) {
 			res.add(Finding{Kind: "oracle", Proj: "variants", Sig: sig, Case: desc, Impl: impl, Model: want})
+		}
+		if pan1 != "" {
+			res.hist("panic")
+			bad("c14-panic", "panic: "+pan1, "output or an error from every variant")
+			continue
 		}
 		check := func(tag string, s string, eS error, b []byte, eB error, w *recWriter, eW error, u *recWriter, eU error) {
 			cls := errClass(eS)
@@ -126,6 +127,7 @@ func suiteC14(cfg Config, res *Result) {
 		check("zz=1", s1, eS1, b1, eB1, w1, eW1, u1, eU1)
 		s0, eS0, b0, eB0, w0, eW0, u0, eU0, pan0 := run(0)
 		if pan0 != "" {
+			bad("c14-panic", "panic (zz=0): "+pan0, "output or an error from every variant")
 			continue
 		}
 		check("zz=0", s0, eS0, b0, eB0, w0, eW0, u0, eU0)
@@ -137,16 +139,38 @@ func suiteC14(cfg Config, res *Result) {
 		} else {
 			res.hist("no-fault")
 		}
-		// the caller's writer fails
+		// the caller's writer fails after `budget` successful calls
 		if eS1 == nil && len(s1) > 0 {
-			fw := &recWriter{budget: 0}
-			var err error
-			func() {
-				defer func() { recover() }()
-				err = tpl.ExecuteWriter(mk(1), fw)
-			}()
-			if err == nil {
-				bad("c14-writer-error-swallowed", "ExecuteWriter returned nil although the writer failed", "the writer's error")
+			for budget := 0; budget <= 3; budget++ {
+				for _, unbuffered := range []bool{false, true} {
+					if !unbuffered && budget > 0 {
+						continue // the buffered variant makes a single call
+					}
+					fw := &recWriter{budget: budget}
+					var err error
+					pan := ""
+					func() {
+						defer func() {
+							if p := recover(); p != nil {
+								pan = fmt.Sprint(p)
+							}
+						}()
+						if unbuffered {
+							err = tpl.ExecuteWriterUnbuffered(mk(1), fw)
+						} else {
+							err = tpl.ExecuteWriter(mk(1), fw)
+						}
+					}()
+					tag := fmt.Sprintf("writer failing after %d calls, unbuffered=%v", budget, unbuffered)
+					switch {
+					case pan != "":
+						bad("c14-panic-on-writer-error", tag+": panic: "+pan, "the writer's error is returned")
+					case !unbuffered && err == nil && fw.calls > budget: // only ExecuteWriter promises to hand the writer's error back
+						bad("c14-writer-error-swallowed", tag+": returned nil although the writer failed", "the writer's error")
+					case !strings.HasPrefix(s1, fw.buf.String()):
+						bad("c14-unbuffered-not-a-prefix", tag+fmt.Sprintf(": wrote %q", fw.buf.String()), fmt.Sprintf("a leading part of %q", s1))
+					}
+				}
 			}
 		}
 		if res.Cases <= 2 {
